@@ -60,7 +60,7 @@ def run(ctx):
     ctx.assumptions = ['package.json sections have unique keys and, per section, distinct real package names (Go map order would otherwise decide)',
                        'updates carry plain version strings (no ":", "/", "@"); an aliased update names its package and a non-empty old version',
                        'pom model: no local parents, plugins, imports, active profiles; property values are literals; one update per dependency key']
-    ctx.rule = ('npm case = three sections (0-4 entries, 26 names incl. dotted/scoped/wildcard/escaped/non-ASCII, plain/alias/non-registry values, repeated keys across sections) in a '
+    ctx.rule = ('npm case = three sections (0-4 entries, 26 names incl. dotted/scoped/wildcard/escaped/non-ASCII, plain/alias/non-registry values, repeated keys across sections; every fourth manifest requires one package through its own name and 1-2 npm: aliases in "dependencies", at identical or different ranges, each entry updated) in a '
                 'random layout (indent, key order, noise sections) x a subset of the requirements Read reports as updates (some with a wrong old version or an ill-formed new one); '
                 'thorough adds every section combination x equal/different versions x 8 names, plain and aliased. '
                 'pp case = (s1, s2) from literal/placeholder pools; thorough adds 155 templates x every s2 of length <=5 over {1 . - x}. '
